@@ -44,6 +44,8 @@ type bclient struct {
 	n    *bnode
 	hus  [][]byte // head updates broadcast (ObjectSyncMessage bytes)
 	reqs []syncdeps.Request
+	// answers to the next tree fetch
+	fetchAnswers [][]byte
 }
 
 func (c *bclient) Broadcast(ctx context.Context, hu *objectmessages.HeadUpdate) error {
@@ -66,8 +68,26 @@ func (c *bclient) QueueRequest(ctx context.Context, req syncdeps.Request) error 
 	return nil
 }
 
+// SendTreeRequest (used when the victim fetches a tree it does not hold): the answers prepared by the
+// step, possibly hostile, are handed to the collector.
 func (c *bclient) SendTreeRequest(ctx context.Context, req syncdeps.Request, collector syncdeps.ResponseCollector) error {
-	return errors.New("no peers in this simulation")
+	if c.fetchAnswers == nil {
+		return errors.New("no peers in this simulation")
+	}
+	for _, b := range c.fetchAnswers {
+		m := &spacesyncproto.ObjectSyncMessage{}
+		if err := m.UnmarshalVT(b); err != nil {
+			return err
+		}
+		resp := collector.NewResponse()
+		if err := resp.(*response.Response).SetProtoMessage(m); err != nil {
+			return err
+		}
+		if err := collector.CollectResponse(ctx, "peer", req.ObjectId(), resp); err != nil {
+			return err
+		}
+	}
+	return nil
 }
 
 func (n *bnode) GetResponsiblePeers(ctx context.Context) ([]peer.Peer, error) {
@@ -334,7 +354,7 @@ func (w *world) stepTree() {
 	}
 	what := fmt.Sprint(whats)
 	ctx := peer.CtxWithPeerId(ctxb, "peer")
-	switch s.Weighted("tree-entry", []int{5, 5, 3, 3, 2}) {
+	switch s.Weighted("tree-entry", []int{5, 5, 3, 3, 2, 3}) {
 	case 0:
 		heads := []string{batch[len(batch)-1].Id}
 		if s.Flip("odd-heads", 0.3) {
@@ -430,6 +450,60 @@ func (w *world) stepTree() {
 			}
 			return t.victim.tree.HandleResponse(ctx, "peer", msg.ObjectId, resp)
 		})
+	case 5: // the victim fetches a tree it does not hold from a hostile peer
+		t.n++
+		seed := make([]byte, 32)
+		_, _ = w.r.Crypto.Read(seed)
+		root2, err := objecttree.CreateObjectTreeRoot(objecttree.ObjectTreeCreatePayload{PrivKey: w.owner.Keys.SignKey, ChangeType: "sim.byz2", ChangePayload: []byte(fmt.Sprint(t.n)),
+			SpaceId: w.space.Id, Seed: seed, Timestamp: 946684800, IsEncrypted: t.encrypted}, t.peer.acl)
+		must(err)
+		tr2, err := synctree.PutSyncTree(ctxb, treestorage.TreeStorageCreatePayload{RootRawChange: root2, Changes: []*treechangeproto.RawTreeChangeWithId{root2}, Heads: []string{root2.Id}}, t.peer.deps())
+		must(err)
+		for i := 0; i < 1+s.Choose("tree2-edits", 5); i++ {
+			tr2.Lock()
+			_, err := tr2.AddContent(ctxb, objecttree.SignableChangeContent{Data: []byte("t2"), Key: t.peer.acc.Keys.SignKey, IsSnapshot: s.Flip("snapshot", 0.25), ShouldBeEncrypted: t.encrypted, Timestamp: int64(946684900 + i)})
+			tr2.Unlock()
+			must(err)
+		}
+		t.peer.client.hus = nil
+		// the peer's honest answer to a new-tree request
+		req := t.victim.client.CreateNewTreeRequest("peer", root2.Id)
+		pm, err := req.Proto()
+		must(err)
+		rb, err := pm.(*spacesyncproto.ObjectSyncMessage).MarshalVT()
+		must(err)
+		rmsg := &spacesyncproto.ObjectSyncMessage{}
+		must(rmsg.UnmarshalVT(rb))
+		var answers [][]byte
+		_, _ = tr2.HandleStreamRequest(peer.CtxWithPeerId(ctxb, "victim"), objectmessages.NewByteRequest("victim", rmsg.SpaceId, rmsg.ObjectId, rmsg.Payload), noQueue{}, func(resp proto.Message) error {
+			bb, e := resp.(*spacesyncproto.ObjectSyncMessage).MarshalVT()
+			answers = append(answers, bb)
+			return e
+		})
+		_ = tr2.Close()
+		if len(answers) == 0 {
+			return
+		}
+		k := s.Choose("which-answer", len(answers))
+		size := 0
+		answers[k], what = w.mutateSyncMessage(answers[k])
+		if s.Flip("drop-an-answer", 0.2) && len(answers) > 1 {
+			answers = append(answers[:k], answers[k+1:]...)
+			what += "; one answer dropped"
+		}
+		for _, a := range answers {
+			size += len(a)
+		}
+		t.victim.client.fetchAnswers = answers
+		w.guard("synctree.BuildSyncTreeOrGetRemote", what, size, func() error {
+			tr, err := synctree.BuildSyncTreeOrGetRemote(ctx, root2.Id, t.victim.deps())
+			if err == nil {
+				_ = tr.Close()
+			}
+			return err
+		})
+		t.victim.client.fetchAnswers = nil
+		t.victim.client.reqs = nil
 	case 4: // a whole tree offered for creation
 		rootc := t.root
 		if s.Flip("hostile-root", 0.4) {
